@@ -36,7 +36,7 @@ N_SAMPLES = 3
 
 
 def plan(tier, seed):
-    per = 8 if tier == "quick" else 100
+    per = 8 if tier == "quick" else 320
     cases = []
     for depth in (4, 8, 16):
         for buffered in (False, True):
@@ -93,13 +93,16 @@ def run_fifo(case, rng):
     # unique ids: token counter in field b (7 bits) is not enough: use both fields
     toks = [dict(t, pay=((i >> 7) & 0xf, i & 0x7f)) for i, t in enumerate(toks)]
     hostile = rng.randint(100, 500)
-    bench = Bench(top, clocks=clocks, cap=hostile + 60 * n + 1500, overrides=inj.overrides, scheduler=sched)
+    # (cycle budgets are counted in cycles of the primary domain b: scaled when a is the slower clock)
+    slow = max(1.0, sched.probs["b"] / sched.probs["a"])
+    bench = Bench(top, clocks=clocks, cap=int((hostile + 60 * n + 1500) * slow), overrides=inj.overrides, scheduler=sched)
     bench.precommit_hooks = [inj.hook]
     drv = bench.add(SourceDriver(dut.sink, toks, Then(make_sched(rng)[0], hostile), rng), "a")
     im = bench.add(EndpointMonitor(dut.sink, "sink"), "a")
     bench.add(SinkDriver(dut.source, Then(make_sched(rng)[0], hostile)), "b")
     om = bench.add(EndpointMonitor(dut.source, "source", check_stability=True), "b")
     resets = []
+    reset_windows = []                    # [assertion, release] in b cycles (held until both domains saw it long enough)
 
     class Ctl:
         """ends the run (domain b is primary): everything delivered, or nothing moved for a long time; drives reset pulses"""
@@ -110,18 +113,25 @@ def run_fifo(case, rng):
             self.rst_left = 0
             self.force = False
             self.stalled = None
+            self.coop = None
+            self.last_a = 0
 
         def signals(self):
             return []
 
         def step(self, v, c):
             self.c = c
+            ca = bench.cycle["a"]
             t = len(im.log) + len(om.log)
             if t != self.tot:
-                self.tot, self.last = t, c
-            elif c > hostile and c - max(self.last, hostile) > 200:
+                self.tot, self.last, self.last_a = t, c, ca
+            if self.coop is None and c > hostile and ca > hostile:
+                self.coop = (c, ca)                  # both drivers have left their hostile prefix (each counts its own cycles)
+            elif self.coop is not None and t == self.tot and c - max(self.last, self.coop[0]) > 200 \
+                    and ca - max(self.last_a, self.coop[1]) > 200:
+                # no handshake on either side for 200 cycles of EACH domain although producer and consumer cooperate
                 self.force = True
-                self.stalled = {"cycle": c, "last_move": self.last}
+                self.stalled = {"b_cycle": c, "a_cycle": ca, "last_move_b_cycle": self.last, "last_move_a_cycle": self.last_a}
             w = None
             if kind == "cdc_rst" and getattr(self, "released", None) and c - self.released[0] >= 4 and bench.cycle["a"] - self.released[1] >= 4:
                 # a few cycles of both clocks after the release: every token accepted from now on must be delivered
@@ -134,12 +144,14 @@ def run_fifo(case, rng):
                     if bench.cycle["a"] - self.rst_a >= self.rst_left and c - self.rst_b >= self.rst_left:
                         self.rst_left = 0
                         self.released = (c, bench.cycle["a"])
+                        reset_windows[-1][1] = c
                         w = {cd_a.rst: 0, cd_b.rst: 0}
                 elif c < hostile and rng.random() < 0.01:
                     self.rst_left = rng.randint(3, 6)
                     self.rst_a, self.rst_b = bench.cycle["a"], c
                     which = rng.choice([cd_a.rst, cd_b.rst])
                     resets.append(c)
+                    reset_windows.append([c, None])
                     w = {which: 1}
             return w
 
@@ -162,18 +174,30 @@ def run_fifo(case, rng):
         if not errs and len(dlv) < len(acc):
             errs.append({"kind": "token-lost-or-stalled", "accepted": len(acc), "delivered": len(dlv), "stall": ctl.stalled})
     else:
-        # with resets: delivered must be an in-order subsequence of accepted, unaltered, no duplicates
+        # with resets: delivered must be an in-order subsequence of accepted, unaltered, no duplicates. Named apart (listed
+        # finding): tokens invented by a reset itself - OFFERED (valid rising) while a reset is asserted or within 10 cycles of
+        # its release: the two sides of the crossing leave reset at different instants and the read side sees a non-empty
+        # FIFO meanwhile. How long such a token then waits for the consumer is irrelevant, so the offer instant is judged, not
+        # the delivery instant. A token invented at any other time, or a wrong token, is the unlisted kind.
         j = 0
+        phantom = None
         for i, b_ in enumerate(dlv):
-            while j < len(acc) and acc[j] != b_:
-                j += 1
-            if j >= len(acc):
-                cyc = om.log[i][0]
-                near = [r_ for r_ in resets if 0 <= cyc - r_ <= 10]
-                errs.append({"kind": "phantom-token-at-reset-assertion" if near else "token-corrupted-duplicated-or-reordered-across-reset",
-                             "index": i, "delivered": b_, "delivered_at_b_cycle": cyc, "resets_at": resets[:5]})
+            jj = j
+            while jj < len(acc) and acc[jj] != b_:
+                jj += 1
+            if jj >= len(acc):
+                cyc, off = om.log[i][0], om.offered_at[i]
+                near = [r_ for r_ in reset_windows if r_[0] <= off <= (r_[1] if r_[1] is not None else off) + 10]
+                info = {"index": i, "delivered": b_, "offered_at_b_cycle": off, "delivered_at_b_cycle": cyc,
+                        "reset_windows": reset_windows[:5]}
+                if near:
+                    phantom = phantom or dict(info, kind="phantom-token-at-reset-assertion")
+                    continue                              # not part of the accepted sequence: keep looking from the same place
+                errs.append(dict(info, kind="token-corrupted-duplicated-or-reordered-across-reset"))
                 break
-            j += 1
+            j = jj + 1
+        if phantom and not errs:
+            errs.append(phantom)
         # every token accepted well after the last reset must arrive (in order, at the end of the delivered list)
         mark = getattr(ctl, "acc_mark", None)
         if not errs and mark is not None and ctl.rst_left == 0 and getattr(ctl, "released", None) is None and drv.done():
@@ -322,6 +346,7 @@ def run_monitor(case, rng):
     count = {"tok": 0, "ovf": 0}
     latched = {"tok": None, "ovf": None, "at": None}
     checks = [0]
+    bcyc = [0]
 
     class DrvB:
         def __init__(self):
@@ -332,6 +357,7 @@ def run_monitor(case, rng):
 
         def step(self, v, c):
             self.c = c
+            bcyc[0] += 1
             if v[ep.valid] and v[ep.ready]:
                 count["tok"] += 1
             if v[ep.valid] and not v[ep.ready]:
@@ -353,11 +379,25 @@ def run_monitor(case, rng):
             w = {mon.latch: 0}
             if c == self.next_latch:
                 w[mon.latch] = 1
-                self.next_latch = c + rng.randint(50, 90)
+                self.next_latch = None                  # the next request is made after this one has been judged
                 latched["req"] = c
-            # 30 sys cycles after a latch request the status must equal the counter value at some instant between the request
-            # and its arrival in the other domain: the counts are monotonic, so it lies between the values at request and now
-            if latched.get("req") is not None and c == latched["req"] + 30:
+                latched["req_b"] = bcyc[0]
+                latched["judge_at"] = None
+                latched["b_from"] = None
+            # the request crosses to the monitored domain (pulse synchroniser: 2-3 of ITS cycles, one more when a flop resolves
+            # late), the count is captured there and crosses back (2-3 sys cycles): judged on elapsed CYCLES OF EACH DOMAIN, not
+            # on sys time alone (the other clock may be several times slower). The status must then equal the counter value at
+            # some instant between the request and now: the counts are monotonic, so it lies between the two values
+            #   sys: request registered (toggle) within 2 cycles -> other domain: 2 synchroniser flops (+1 when the first one
+            #   resolves late) + 1 capture = at most 4 cycles, counted from then -> sys: 2 flops + 1 torn sample = 3 cycles
+            if latched.get("req") is not None and latched.get("req_b") is not None and c == latched["req"] + 2:
+                latched["b_from"] = bcyc[0]
+            if latched.get("req") is not None and latched.get("judge_at") is None and latched.get("b_from") is not None \
+                    and bcyc[0] >= latched["b_from"] + 5:
+                latched["judge_at"] = c + 4
+            if latched.get("req") is not None and latched.get("judge_at") == c:
+                self.next_latch = c + rng.randint(10, 40)
+                latched["req"] = None
                 lo_t, lo_o = latched.get("snap", (0, 0))
                 checks[0] += 1
                 st_t, st_o = v[mon._tokens.status], v[mon._overflows.status]
